@@ -12,6 +12,7 @@
   history oracle (fresh-process comparison).
 -/
 import Dlismodel.Model.Cache
+import Dlismodel.Proofs.Defaults
 namespace Dlis.C14
 open Dlis
 
@@ -112,6 +113,28 @@ theorem types_never_collide (i : Int) (b : Bool) (f : Nat) :
     pyEq (.int i) (.bool b) = false ∧ pyEq (.int i) (.f64 f) = false ∧ pyEq (.bool b) (.f64 f) = false := ⟨rfl, rfl, rfl⟩
 
 example : (cachedWrite [((7, .f64 0x3FF0000000000000), .ok [1])] 7 (.f64 0x3FF0000000000000)).2 = .ok [1] := by
+  decide +kernel
+
+/-! Values derived at write time: the DIMENSION of a parameter / computation / calibration measurement that the user
+did not assign is derived from the values by the write-time checks (`Model/Defaults.lean`, `DimState`).  Whatever
+checks went before — writes that succeeded or were refused, with whatever values — a check gives the outcome, and
+leaves the dimension, that it gives on an item that only ever saw the user's own assignment. -/
+theorem derived_dimension_history_independent (cs : List DimCheck) (c : DimCheck) (s : DimState) :
+    c.run (dimHistory cs s) = c.run (DimState.assigned s.forget) := check_after_any_history cs c s
+
+/-- what the user assigned is what every check starts from -/
+theorem assigned_dimension_survives (cs : List DimCheck) (d : Option (List Nat)) :
+    (dimHistory cs (DimState.assigned d)).forget = d := dimHistory_user cs (DimState.assigned d)
+
+/-- a non-trivial instance: values of per-value shape [2], then of shape [3] (accepted: the dimension is derived anew),
+then the user assigns [2] and the same values are refused -/
+example :
+    let v2 : PyVal := .list [.list [.int 1, .int 2]]
+    let v3 : PyVal := .list [.list [.int 1, .int 2, .int 3]]
+    let s1 := (paramCheckSt true v2 (some 1) none (DimState.assigned none)).1
+    let r2 := paramCheckSt true v3 (some 1) none s1
+    s1.held = some [2] ∧ r2.2 = .ok () ∧ r2.1.held = some [3] ∧
+      (paramCheckSt true v3 (some 1) none (DimState.assigned (some [2]))).2 = .error .runtime := by
   decide +kernel
 
 end Dlis.C14
